@@ -6,7 +6,7 @@ Ev == TraceLog[l]
 TReset == /\ Ev.e = "Reset"
           /\ st' = [i \in Thr |-> "none"] /\ kind' = [i \in Thr |-> ""] /\ tid' = [i \in Thr |-> 0 - 1]
           /\ nreg' = [i \in Thr |-> 0] /\ ncb' = [i \in Thr |-> 0] /\ joined' = [i \in Thr |-> FALSE] /\ mainTid' = 0
-          /\ once' = [n \in Onces |-> "no"]
+          /\ once' = [n \in Onces |-> "no"] /\ jto' = WZero /\ jt0' = WZero
 TSetup == Ev.e = "Setup" /\ mainTid' = Ev.main /\ UNCHANGED <<st, kind, tid, nreg, ncb, joined, once>>
 TLaunch == Ev.e = "Launch" /\ Launch(Ev.thr, Ev.kind)
 (* launch succeeds (a cpu that cannot be used is not an error: the library launches unpinned); the thread object *)
@@ -19,17 +19,18 @@ TAtExitReg == Ev.e = "AtExitReg" /\ AtExitReg(Ev.thr, Ev.idx, Ev.rc)
 TFnEnd == Ev.e = "FnEnd" /\ FnEnd(Ev.thr)
 TAtExit == Ev.e = "AtExit" /\ AtExit(Ev.thr, Ev.idx, Ev.on)
 TJoinRet == Ev.e = "JoinRet" /\ JoinRet(Ev.thr, Ev.rc)
-TJoinAllBegin == Ev.e = "JoinAllBegin" /\ UNCHANGED tvars
+TJoinAllBegin == Ev.e = "JoinAllBegin" /\ JoinAllBegin(Ev.t)
+TSetJoinTimeout == Ev.e = "SetJoinTimeout" /\ SetJoinTimeout(Ev.ns)
 TReInit == Ev.e = "ReInit" /\ UNCHANGED tvars     \* initialising the library again changes nothing observable
-TJoinAllRet == Ev.e = "JoinAllRet" /\ JoinAllRet(Ev.rc, Ev.count)
+TJoinAllRet == Ev.e = "JoinAllRet" /\ JoinAllRet(Ev.rc, Ev.count, Ev.t)
 TOnceRan == Ev.e = "OnceRan" /\ OnceRan(Ev.n, Ev.argok)
 TOnceEnd == Ev.e = "OnceEnd" /\ OnceEnd(Ev.n)
 TOnceRet == Ev.e = "OnceRet" /\ OnceRet(Ev.n)
 TSelfView == Ev.e = "SelfView" /\ SelfView(Ev.thr, Ev.ideq, Ev.idmain, Ev.named, Ev.nameok, Ev.sleptok)
 TEnd == Ev.e = "End" /\ EndOk(Ev.live, Ev.unjoined)
 
-TNext == l <= TraceLen /\ l' = l + 1 /\
+TNext == l <= TraceLen /\ l' = l + 1 /\ (Ev.e \notin {"Reset", "JoinAllBegin", "SetJoinTimeout"} => UNCHANGED jvars) /\
          (TReset \/ TSetup \/ TLaunch \/ TLaunchRet \/ TFnRan \/ TAtExitReg \/ TFnEnd \/ TAtExit \/ TJoinRet
-            \/ TJoinAllBegin \/ TReInit \/ TJoinAllRet \/ TOnceRan \/ TOnceEnd \/ TOnceRet \/ TSelfView \/ TEnd)
-TSpec == (l = 1 /\ TInit0) /\ [][TNext]_<<tvars, l>>
+            \/ TJoinAllBegin \/ TSetJoinTimeout \/ TReInit \/ TJoinAllRet \/ TOnceRan \/ TOnceEnd \/ TOnceRet \/ TSelfView \/ TEnd)
+TSpec == (l = 1 /\ TInit0 /\ jto = WZero /\ jt0 = WZero) /\ [][TNext]_<<tvars, jvars, l>>
 =============================================================================
